@@ -1,8 +1,154 @@
-/- Driver handler of C12: protocol line (already split into tokens, without the leading "c12") -> answer. -/
+/-
+  Driver handler of C12: one line = one workbook file + one call of `validate_calcs`.
+
+    c12 <tree> <tol> <n> <spec>*n  P <i> <stored> | P - -   T <i> <text> | T - -   O <k> o*k
+      tree : 0 | 1                         verify_tree
+      tol  : z | n:p/q                     tolerance (z = None)
+      spec : I <val> | F ref j | F cat k j*k | F add a b | F sum k j*k | F cnt k j*k | F idx r row col
+             | R <rows> <cols> j*(rows*cols)
+             | X <exc|nimpl> <val> k j*k   a formula pycel cannot evaluate (raises after its k precedents were
+                                           evaluated); <val> = the result Excel stored for it
+      P i v : the stored result of node i is replaced by v (z = no stored result)
+      T i t : t = the text of the formula of node i (for the "No Orig data?" rule)
+      O     : the checked outputs, in the order of `output_addrs`
+  The stored results of the file are the from-scratch values (an X node counts as the constant stored for it).
+  Answer: `M i:orig:calced …;X i …;N i …` (mismatch dict sorted by node, the two class lists sorted, duplicates kept).
+  Trusted glue, not part of any theorem.
+-/
 import Pycel.Model.Proto
+import Pycel.Model.EngineInst
+import Pycel.Model.Validate
 namespace Pycel.Drv.C12
+open Pycel Pycel.Engine Pycel.EngineInst Pycel.Validate
+
+partial def takeNats : Nat → List String → Option (List Nat × List String)
+  | 0, ts => some ([], ts)
+  | k+1, t :: ts => do
+    let j ← t.toNat?
+    let (js, rest) ← takeNats k ts
+    some (j :: js, rest)
+  | _, [] => none
+
+/-- a node: the C01 spec, and for an X node the exception class and the value Excel stored -/
+structure Node where
+  spec : Spec
+  raises : Option (Fail × Val) := none
+
+partial def parseNodes : Nat → List String → Option (List Node × List String)
+  | 0, ts => some ([], ts)
+  | k+1, ts => do
+    let (nd, rest) ← (match ts with
+      | "I" :: v :: rest => do some ({ spec := .inp (← Val.dec? v) }, rest)
+      | "F" :: "ref" :: j :: rest => do some ({ spec := .fml (.ref (← j.toNat?)) }, rest)
+      | "F" :: "add" :: a :: b :: rest => do some ({ spec := .fml (.add (← a.toNat?) (← b.toNat?)) }, rest)
+      | "F" :: "idx" :: r :: row :: col :: rest => do
+          some ({ spec := .fml (.idx (← r.toNat?) (← row.toNat?) (← col.toNat?)) }, rest)
+      | "F" :: "cat" :: k :: rest => do
+          let (js, rest) ← takeNats (← k.toNat?) rest
+          some ({ spec := .fml (.cat js) }, rest)
+      | "F" :: "sum" :: k :: rest => do
+          let (js, rest) ← takeNats (← k.toNat?) rest
+          some ({ spec := .fml (.sum js) }, rest)
+      | "F" :: "cnt" :: k :: rest => do
+          let (js, rest) ← takeNats (← k.toNat?) rest
+          some ({ spec := .fml (.cnt js) }, rest)
+      | "R" :: r :: c :: rest => do
+          let r ← r.toNat?
+          let c ← c.toNat?
+          let (js, rest) ← takeNats (r*c) rest
+          some ({ spec := .rng (chunk c r js) }, rest)
+      | "X" :: cls :: v :: k :: rest => do
+          let cl ← (if cls = "exc" then some Fail.exc else if cls = "nimpl" then some Fail.notImpl else none)
+          let v ← Val.dec? v
+          let (js, rest) ← takeNats (← k.toNat?) rest
+          some ({ spec := .fml (.cat js), raises := some (cl, v) }, rest)
+      | _ => none : Option (Node × List String))
+    let (nds, rest) ← parseNodes k rest
+    some (nd :: nds, rest)
+
+def encEV : EV → String
+  | .sc v => v.enc
+  | .arr rows => encArr rows
+
+/-- from-scratch values of all nodes, in topological order -/
+def denoteAll (n : Nat) (wb : Workbook) (f : Nat → (Nat → EV) → EV) (inp : Nat → EV) : Array EV :=
+  (List.range n).foldl (fun acc i =>
+    acc.push (match wb.kind i with
+      | .input => inp i
+      | _ => f i (fun j => acc.getD j (.sc .blank)))) #[]
+
+def closeEV (tol : Option Rat) : EV → EV → Bool
+  | .sc a, .sc b => closeVal tol a b
+  | a, b => decide (a = b)
+
+def insertSorted (a : Nat) : List Nat → List Nat
+  | [] => [a]
+  | b :: bs => if a ≤ b then a :: b :: bs else b :: insertSorted a bs
+
+def sortNats (l : List Nat) : List Nat := l.foldr insertSorted []
 
 def handle : List String → String
+  | "c12" :: tree :: tol :: n :: rest =>
+    match n.toNat? with
+    | none => "!bad-n"
+    | some n =>
+      match parseNodes n rest with
+      | none => "!bad-spec"
+      | some (nodes, rest) =>
+        match rest with
+        | "P" :: pi :: pv :: "T" :: ti :: tv :: "O" :: k :: outs =>
+          let tol? : Option (Option Rat) :=
+            if tol = "z" then some none else
+            match Val.dec? tol with
+            | some (.num q) => some (some q)
+            | _ => none
+          match tol?, k.toNat?.bind (fun k => takeNats k outs) with
+          | some tolv, some (outs, []) =>
+            let specs := nodes.map (·.spec)
+            if !wfCheck specs then "!notwf" else
+            let wb := mkWb specs
+            let raisesAt : Nat → Option (Fail × Val) := fun i => (nodes[i]?).bind (·.raises)
+            -- total semantics (what Excel computed): an X node is the constant stored for it
+            let f : Nat → (Nat → EV) → EV := fun i env =>
+              match raisesAt i with
+              | some (_, v) => .sc v
+              | none => sem specs i env
+            let g : Nat → (Nat → EV) → Except Fail EV := fun i env =>
+              match raisesAt i with
+              | some (e, _) => .error e
+              | none => .ok (sem specs i env)
+            let inp := inputsOf specs
+            let den := denoteAll n wb f inp
+            let stored0 : Nat → Option EV := fun j =>
+              match wb.kind j with
+              | .formula => (match den.getD j (.sc .blank) with
+                  | .sc .blank => none
+                  | .sc (.str []) => none     -- openpyxl reads a stored empty string as None
+                  | v => some v)
+              | _ => none
+            let stored : Nat → Option EV :=
+              match pi.toNat?, Val.dec? pv with
+              | some i, some .blank => fun j => if j = i then none else stored0 j
+              | some i, some (.str []) => fun j => if j = i then none else stored0 j
+              | some i, some v => fun j => if j = i then some (.sc v) else stored0 j
+              | _, _ => stored0
+            let noData : Nat → EV → Bool :=
+              match ti.toNat?, Val.dec? tv with
+              | some i, some t => fun j v => decide (j = i) && decide (v = .sc t)
+              | _, _ => fun _ _ => false
+            let C : Cfg EV := { wb := wb, g := g, inp := inp, stored := stored, close := closeEV tolv,
+                                noData := noData, tree := tree = "1" }
+            let fin := validate C outs
+            if !fin.todo.isEmpty then "!fuel" else
+            let keys := sortNats (fin.rep.mismatch.map (·.1)).eraseDups
+            let ms := keys.filterMap fun a =>
+              (fin.rep.lookup a).map fun (o, c) => s!"{a}:{encEV o}:{encEV c}"
+            let xs := sortNats ((fin.rep.failed.filter fun e => e.2 == Fail.exc).map (·.1))
+            let ns := sortNats ((fin.rep.failed.filter fun e => e.2 == Fail.notImpl).map (·.1))
+            " ".intercalate ("M" :: ms) ++ ";" ++ " ".intercalate ("X" :: xs.map toString) ++ ";" ++
+              " ".intercalate ("N" :: ns.map toString)
+          | _, _ => "!bad-tail"
+        | _ => "!bad-tail"
   | _ => "!bad-op"
 
 end Pycel.Drv.C12
